@@ -319,6 +319,6 @@ def replay(case, acc, ctx):
             tempfile.tempdir = shm
         env.set_options(dd, ['in.smt2', 'out.smt2', '/bin/true'])
         dd.tmpfiles.init()
-        enumerate_points(dd, case['prev'], case['next'], case['fmt'], ctx.workdir, acc, case)
+        enumerate_points(dd, sanitize(case['prev']), sanitize(case['next']), case['fmt'], ctx.workdir, acc, case)
     else:
         run_e2e(case, acc, os.path.join(ctx.workdir, 'replay'))
